@@ -444,16 +444,21 @@ func stlGenGSI(r *fw.Rand) stlGSI {
 	if r.Bool() {
 		g.RD = fmt.Sprintf("%02d%02d%02d", r.Intn(100), r.Range(1, 12), r.Range(1, 28))
 	}
-	switch r.Intn(3) {
+	switch r.Intn(4) {
 	case 1:
 		g.TCP = [4]int{10, 0, 0, 0}
 	case 2:
 		g.TCP = [4]int{r.Intn(3), r.Intn(60), r.Intn(60), r.Intn(g.FPS)}
+	case 3:
+		g.TCP = [4]int{fw.Pick(r, []int{9, 22, 23}), 59, 58, r.Intn(g.FPS)}
 	}
 	return g
 }
 
 func stlGenTC(r *fw.Rand, fps int, minH int) [4]byte {
+	if minH > 23 {
+		minH = 23 // (the caller makes sure the programme start is before 23:00:00:00 in that case)
+	}
 	f := byte(fw.Pick(r, []int{0, 1, fps - 1, r.Intn(fps)}))
 	switch r.Intn(4) {
 	case 0:
@@ -473,6 +478,9 @@ func stlGenModel(r *fw.Rand, enumerate [][]byte) stlModel {
 	}
 	minH := 0
 	if m.G.TCP[0] > 0 || m.G.TCP[1] > 0 || m.G.TCP[2] > 0 || m.G.TCP[3] > 0 {
+		if m.G.TCP[0] >= 23 {
+			m.G.TCP[0] = 22 // reader direction: in/out cues (hours < 24 in the file) stay after the programme start
+		}
 		minH = m.G.TCP[0] + 1 // keep in/out cues after the programme start
 	}
 	for k := 0; k < n; k++ {
@@ -696,8 +704,21 @@ func stlGenWriterModel(r *fw.Rand) (stlModel, *astisub.Subtitles, string) {
 	for k := 0; k < n; k++ {
 		// frame-aligned instants (C16 covers truncation), relative to the programme start
 		fr := func() int64 {
-			t := stlGenTC(r, g.FPS, g.TCP[0]+boolInt(tcp > 0))
-			return stlTimeNs(t, g.FPS) - tcp
+			if tcp > 0 && r.Bool() {
+				// any instant of the day relative to the programme start: the timecode in the file may pass 24:00:00:00
+				t := stlGenTC(r, g.FPS, 0)
+				tot := stlTimeNs(t, g.FPS) + tcp
+				// re-align on the frame grid of the file timeline
+				sec, sub := tot/1e9, tot%1e9
+				fno := sub * int64(g.FPS) / 1e9
+				return sec*1e9 + (fno*1e9+int64(g.FPS)-1)/int64(g.FPS) - tcp
+			}
+			h := g.TCP[0] + boolInt(tcp > 0)
+			t := stlGenTC(r, g.FPS, h)
+			if v := stlTimeNs(t, g.FPS) - tcp; v >= 0 {
+				return v
+			}
+			return stlTimeNs(stlGenTC(r, g.FPS, 0), g.FPS)
 		}
 		c := stlCue{start: fr(), end: fr(), VP: byte(r.Range(1, 23)), JC: byte(r.Intn(4))}
 		it := &astisub.Item{StartAt: time.Duration(c.start), EndAt: time.Duration(c.end)}
@@ -744,6 +765,12 @@ func stlGenWriterModel(r *fw.Rand) (stlModel, *astisub.Subtitles, string) {
 		if len(it.Lines) == 0 {
 			it.Lines = []astisub.Line{{Items: []astisub.LineItem{{Text: "x"}}}}
 			c.Rows, c.NRows = [][]stlRun{{{Text: "x"}}}, 1
+		}
+		if r.P(1, 12) {
+			// a text that fills the 112-byte text field exactly (or leaves one byte)
+			t := strings.Repeat("abcdefghij", 12)[:fw.Pick(r, []int{112, 111, 110})]
+			it.Lines = []astisub.Line{{Items: []astisub.LineItem{{Text: t}}}}
+			c.Rows, c.NRows = [][]stlRun{{{Text: t}}}, 1
 		}
 		m.Cues = append(m.Cues, c)
 		s.Items = append(s.Items, it)
@@ -802,6 +829,13 @@ func stlDecodeFile(b []byte) (meta string, cues string, tcs [][8]byte, err error
 		var tci, tco [4]byte
 		copy(tci[:], blk[5:9])
 		copy(tco[:], blk[9:13])
+		if k == 0 {
+			// the GSI "timecode: first in-cue" must be the in-cue of the first subtitle
+			want := fmt.Sprintf("%02d%02d%02d%02d", tci[0], tci[1], tci[2], tci[3])
+			if got := f(264, 272); got != want {
+				return "", "", nil, fmt.Errorf("GSI timecode first in-cue is %q, the first TTI block starts at %s", got, want)
+			}
+		}
 		if int(tci[3]) >= g.FPS || int(tco[3]) >= g.FPS || tci[1] >= 60 || tci[2] >= 60 || tco[1] >= 60 || tco[2] >= 60 {
 			return "", "", nil, fmt.Errorf("TTI block %d: timecode out of range %v %v", k, tci, tco)
 		}
